@@ -74,59 +74,64 @@ def _first_para(notes, keys):
     return (paras[0] if paras else "")[:900]
 
 
-def run(names, tier, props):
-    rc, out = sh("git -C /repo status --porcelain")
-    if out.strip():
-        raise SystemExit("/repo not clean:\n" + out)
+def _run_one(args):
+    n, tier, props = args
+    d = os.path.join(SEEDED, n)
+    meta = json.load(open(os.path.join(d, "meta.json")))
+    plist = props or [meta["property"]] + list(meta.get("also_check", []))
+    wt = "/tmp/seedwt_%s_%d" % (n, os.getpid())
+    out_dir = "/tmp/seedout_%s_%d" % (n, os.getpid())
+    rc, out = sh("git -C /repo worktree add -q --detach %s HEAD" % wt)
+    if rc:
+        return n, dict(error="worktree: " + out[:200]), ["%s worktree failed %s" % (n, out[:200])]
+    lines, res = [], {}
+    try:
+        rc, out = sh("git apply %s" % os.path.join(d, "patch.diff"), cwd=wt)
+        if rc:
+            return n, dict(error="patch does not apply to current /repo HEAD"), ["%-12s PATCH DOES NOT APPLY %s" % (n, out[:160])]
+        env = dict(os.environ, VERIF_REPO=wt, VERIF_OUT=out_dir)
+        for p in plist:
+            if not [f for f in os.listdir(os.path.join(V, "harness")) if f.startswith(p.lower() + "_")]:
+                lines.append("%-12s %s: no harness yet" % (n, p))
+                continue
+            t = time.time()
+            rc, out = sh("./check %s --tier %s" % (p, tier), cwd=V, env=env, timeout=4 * 3600)
+            viol = [l for l in out.splitlines() if l.startswith("VIOLATION")]
+            herr = [l for l in out.splitlines() if l.startswith("HARNESS-ERROR")]
+            verdict = "CAUGHT" if rc == 1 and viol else ("harness-error" if rc == 2 else "MISSED")
+            lines.append("%-12s %s %s: exit %d, %d violation line(s), %d harness error(s), %.0fs  %s" % (
+                n, p, tier, rc, len(viol), len(herr), time.time() - t, verdict))
+            if viol:
+                lines.append("      " + viol[0].replace(out_dir, "<out>")[:230])
+            if herr and not viol:
+                lines.append("      " + herr[0][:300])
+            res["%s/%s" % (p, tier)] = dict(
+                exit=rc, verdict=verdict, violations=[v.replace(out_dir, "<out>")[:300] for v in viol[:4]],
+                harness_errors=[h[:300] for h in herr[:3]], seconds=round(time.time() - t),
+                repo_head=sh("git -C /repo rev-parse --short HEAD")[1].strip(),
+                verif_head=sh("git -C %s rev-parse --short HEAD" % V)[1].strip())
+    finally:
+        sh("git -C /repo worktree remove --force %s" % wt)
+        shutil.rmtree(out_dir, ignore_errors=True)
+    return n, res, lines
+
+
+def run(names, tier, props, jobs=1):
+    """each stored patch is applied in its own scratch worktree of /repo HEAD (VERIF_REPO points the check at it), so
+    /repo itself and the committed evidence are never touched; the worktree is removed straight afterwards"""
     respath = os.path.join(SEEDED, "RESULTS.json")
     results = json.load(open(respath)) if os.path.exists(respath) else {}
     names = names or sorted(n for n in os.listdir(SEEDED) if os.path.isdir(os.path.join(SEEDED, n)))
-    for n in names:
-        d = os.path.join(SEEDED, n)
-        meta = json.load(open(os.path.join(d, "meta.json")))
-        plist = props or [meta["property"]] + list(meta.get("also_check", []))
-        rc, out = sh("git -C /repo apply %s" % os.path.join(d, "patch.diff"))
-        if rc:
-            # the tree moved on (fix: commits): rebase the stored patch with a 3-way apply and keep the rebased form
-            rc, out = sh("git -C /repo apply --3way %s" % os.path.join(d, "patch.diff"))
-            if rc:
-                sh("git -C /repo reset -q --hard HEAD")
-                print(n, "PATCH DOES NOT APPLY", out[:200])
-                results[n] = dict(error="patch does not apply to current /repo HEAD")
-                continue
-            sh("git -C /repo reset -q")
-            rc2, diff = sh("git -C /repo diff")
-            if not os.path.exists(os.path.join(d, "patch.orig.diff")):
-                shutil.copy(os.path.join(d, "patch.diff"), os.path.join(d, "patch.orig.diff"))
-            open(os.path.join(d, "patch.diff"), "w").write(diff)
-            meta["rebased_onto"] = sh("git -C /repo rev-parse --short HEAD")[1].strip()
-            json.dump(meta, open(os.path.join(d, "meta.json"), "w"), indent=1)
-            print(n, "patch rebased onto", meta["rebased_onto"])
-        try:
-            for p in plist:
-                if not [f for f in os.listdir(os.path.join(V, "harness")) if f.startswith(p.lower() + "_")]:
-                    print("%-28s %s: no harness yet" % (n, p))
-                    continue
-                t = time.time()
-                rc, out = sh("./check %s --tier %s" % (p, tier), cwd=V, timeout=7200)
-                viol = [l for l in out.splitlines() if l.startswith("VIOLATION")]
-                herr = [l for l in out.splitlines() if l.startswith("HARNESS-ERROR")]
-                verdict = "CAUGHT" if rc == 1 and viol else ("harness-error" if rc == 2 else "MISSED")
-                print("%-28s %s %s: exit %d, %d violation line(s), %d harness error(s), %.0fs  %s" % (
-                    n, p, tier, rc, len(viol), len(herr), time.time() - t, verdict), flush=True)
-                if viol:
-                    print("      " + viol[0][:230])
-                if herr and not viol:
-                    print("      " + herr[0][:300])
-                results.setdefault(n, {})["%s/%s" % (p, tier)] = dict(
-                    exit=rc, verdict=verdict, violations=[v[:300] for v in viol[:4]], harness_errors=[h[:300] for h in herr[:3]],
-                    repo_head=sh("git -C /repo rev-parse --short HEAD")[1].strip(),
-                    verif_head=sh("git -C %s rev-parse --short HEAD" % V)[1].strip())
-        finally:
-            sh("git -C /repo checkout -- .")
+    import multiprocessing.pool
+    with multiprocessing.pool.ThreadPool(jobs) as pool:
+        for n, res, lines in pool.imap_unordered(_run_one, [(n, tier, props) for n in names]):
+            print("\n".join(lines), flush=True)
+            if "error" in res:
+                results[n] = res
+            else:
+                results.setdefault(n, {}).update(res)
     json.dump(results, open(respath, "w"), indent=1, sort_keys=True)
-    rc, out = sh("git -C /repo status --porcelain")
-    assert not out.strip(), out
+    sh("git -C /repo worktree prune")
 
 
 if __name__ == "__main__":
@@ -134,15 +139,17 @@ if __name__ == "__main__":
     if a and a[0] == "verify":
         sys.exit(0 if verify(a[1], a[2], a[3]) else 1)
     if a and a[0] == "run":
-        tier, props, names = "quick", None, []
+        tier, props, names, jobs = "quick", None, [], 1
         i = 1
         while i < len(a):
             if a[i] == "--tier":
                 tier = a[i + 1]; i += 2
             elif a[i] == "--props":
                 props = a[i + 1].split(","); i += 2
+            elif a[i] == "-j":
+                jobs = int(a[i + 1]); i += 2
             else:
                 names.append(a[i]); i += 1
-        run(names, tier, props)
+        run(names, tier, props, jobs)
     else:
         print(__doc__)
